@@ -733,7 +733,9 @@ def deriveCache (cfg : Cfg) (m : Mem) (sc : Nat) (p : Path) : Mem × Option Err 
       | none => (m, some .accountNotCached)
       | some info =>
         let priv := !m.locked && !m.watchOnly
-        if priv && !info.keyPriv then (m, some .panic)     -- deriveKey on a nil acctKeyPriv (watch-only account)
+        -- /repo 9c… "DeriveFromKeyPathCache refuses accounts that have no private key": acctKeyPriv == nil ⇒
+        -- ErrWatchingOnly (before that fix an unlocked manager dereferenced the nil key and panicked)
+        if !info.keyPriv then (m, some .watchingOnly)
         else if !priv then (m, some .notPrivExtKey)
         else (m.updScope sc (fun s => { s with pkc := (pkcTouch s.pkc p).take cfg.cap }), none)
 
